@@ -100,7 +100,7 @@ def run(tier, seed):
         "(leaf instances by slash-joined path, leaf definition, data, partition of leaf pin bits and top port bits); "
         "states = distinct canonical inputs; non-trivial = some net spans more than one hierarchy level")
     found = {}
-    deadline = time.time() + (200 if tier == "quick" else 3000)
+    deadline = time.time() + (900 if tier == "quick" else 6000)
     cs = cases(tier)
     k = seed % 7
     engine_b.run_cases(ID, cs[k:] + cs[:k], cov, found, deadline, level="F_hier/" + tier)
